@@ -1053,6 +1053,15 @@ def correspond(res, rng, tier):
   em = emitted_cases(mods, srcs)
   cases3 = []
   dropped = 0
+  # anchors: the settings io.generate_pyi_ast passes and the container-name table are what the model assumes
+  expect_kw = {"lossy": False, "use_abcs": False, "max_union": 7, "remove_mutable": False}
+  for node, dps, kw, src in em[:1]:
+    if kw != expect_kw or dps is None:
+      disagreements.append({"kind": "io.generate_pyi_ast call site", "real": repr(kw) + " deps=%r" % (dps is not None),
+                            "model": repr(expect_kw) + " deps=True (Opts.pytype)"})
+  names = {k.__name__: tuple(v) for k, v in mods["optimize"].CombineContainers._CONTAINER_NAMES.items()}
+  if names != {"TupleType": ("builtins.tuple", "typing.Tuple"), "CallableType": ("typing.Callable",)}:
+    disagreements.append({"kind": "CombineContainers._CONTAINER_NAMES", "real": repr(names), "model": "containerNames"})
   for node, dps, kw, src in em:
     cd = Codec(pytd)
     fu, dr = fragment_unit(mods, cd, node)
